@@ -19,6 +19,11 @@ class CaseNode(BaseNode):
             parser.part_comment()
             return CaseNode(parser)
             
+    def inject_value(self, env, node=None):
+        # reference is not injected if some of the enclosing cases is not selected
+        if not env.branching.false_case(self.indent):
+            super().inject_value(env, node)
+            
     def parse(self, env):
         if m := re.match(fr"(.*{Sign.CONDITION})({Keyword.CASE}|{Keyword.ELSE}|{Keyword.END})$", self.name):
             self.case_id = env.branching.register_case()  # set node case ID
